@@ -58,7 +58,8 @@ class Gen:
         r = self.r
         p = []
         kids = []              # children created so far
-        fresh = None           # child created in this atomic step (no suspension since)
+        fresh = None           # child created last in this atomic step (no suspension since)
+        unstarted = set()      # all children created since the last suspension of this task
         for _ in range(r.randint(1, 5 if depth == 0 else 3)):
             k = r.random()
             if k < 0.18 and self.free and depth < 2:
@@ -68,6 +69,7 @@ class Gen:
                 p[sub][2] = self.prog(ch, depth + 1, "create")
                 kids.append(ch)
                 fresh = ch
+                unstarted.add(ch)
             elif k < 0.40:
                 tgt = me if (fresh is None or r.random() < 0.5) else fresh
                 if tgt == me and kind == "svc" and self.masked:
@@ -81,9 +83,10 @@ class Gen:
             elif k < 0.57 and kids:
                 p.append(["wait", r.choice(kids)])
                 fresh = None
+                unstarted = set()
             elif k < 0.67 and kids:
                 v = r.choice(kids)
-                if self.masked and (v == fresh or v in self.sleepy):
+                if self.masked and (v in unstarted or v in self.sleepy):
                     continue              # masks of cancel-unstarted-typeerror / cancel-in-cb-skips-cleanup
                 self.targets.add(v)
                 p.append(["cancel", v])
@@ -96,6 +99,7 @@ class Gen:
             elif k < 0.86:
                 p.append(["sleep", r.choice([0, 1, 1, 2])])
                 fresh = None
+                unstarted = set()
             elif k < 0.92:
                 if self.masked and me in self.sleepy:
                     continue
